@@ -19,6 +19,10 @@
 (* other-goroutine: another value was serialised between Marshal and the   *)
 (* parse of the kept bytes) and of the concurrency family (inter =         *)
 (* concurrent) are judged by the same laws, the tag carries the family.    *)
+(* Life events (one object hashed, changed, copied, hashed again, sent):    *)
+(*   Inv.Hash.current-values / Inv.Hash.function:<kind>  the digest is a   *)
+(*        function of the current field values;  Inv.Identity.wire:<kind>  *)
+(*        the parsed object's digest is the Hash that was set.             *)
 (* Conformance tags (the reference says more than the statement)           *)
 (*   norm:<kind>         x1 is not the documented normal form of x         *)
 (*   parse-class:<kind>  object/error differs from the req/opt tags and the *)
@@ -108,8 +112,32 @@ JudgeParse(e) ==
                     (IF IsObj(e.pass1) THEN Tag(e.x1 = NormOf(k, e.x), "norm:" \o k) ELSE <<>>))
          ELSE <<>>)
 
+(* the life of one object: every digest the live object gave (steps H, S, and W's parsed object) is
+   the digest of a freshly built object with the same field values (hf), equal lives-states give
+   equal digests, and after the wire the parsed object's digest is the Hash that was set *)
+LifeFields(kind) == CASE kind = "header" -> DOMAIN HeaderKinds
+                      [] kind = "tx" -> DOMAIN TxKinds \ {"Hash"}
+                      [] kind = "gheader" -> DOMAIN GHeaderKinds \ {"Hash"}
+JudgeLife(e) ==
+  LET k == e.kind
+      st0 == [f \in LifeFields(k) |-> 0]
+      plain == [i \in 1..Len(e.steps) |-> [o |-> e.steps[i].o, f |-> e.steps[i].f]]
+      Seen == {i \in 1..Len(e.steps) : e.steps[i].h # ""}
+      View(i) == DigestView(k, StateAfter(st0, plain, i))
+  IN  Tag(~e.panic, "Inv.Total.panic:" \o k \o ":" \o e.where) \o
+      (IF e.panic THEN <<>>
+       ELSE Tag(\A i \in Seen : e.steps[i].h = e.steps[i].hf, "Inv.Hash.current-values:" \o k) \o
+            Tag(\A i, j \in Seen : View(i) = View(j) => e.steps[i].h = e.steps[j].h, "Inv.Hash.function:" \o k) \o
+            Tag(\A i, j \in Seen : View(i) # View(j) => e.steps[i].h # e.steps[j].h, "hash-injective:" \o k) \o
+            Tag(\A i \in 1..Len(e.steps) : e.steps[i].o = "W" =>
+                  /\ e.steps[i].res = "object"
+                  /\ e.steps[i].stored = e.set             \* the Hash field travels unchanged
+                  /\ e.steps[i].h = e.set,                 \* and is still the digest of the parsed object
+                "Inv.Identity.wire:" \o k))
+
 Judge(e) ==
-  CASE e.event = "RoundTrip" -> JudgeRoundTrip(e)
+  CASE e.event = "Life" -> JudgeLife(e)
+    [] e.event = "RoundTrip" -> JudgeRoundTrip(e)
     [] e.event = "Parse" -> JudgeParse(e)
     [] OTHER -> <<"unknown-event">>
 
